@@ -164,6 +164,15 @@ class TaggedInts(Tagged[str], list[int]):
     pass
 
 
+# pseudo-superclasses that constrain *classes* by the type variable ("registry of plugin classes")
+class ClassList(list[type[T]]):
+    pass
+
+
+class ClassRegistry(dict[str, type[T]]):
+    pass
+
+
 # a TypeVar bounded by a runtime-checkable protocol that has a data member (issubclass() refuses such protocols)
 @runtime_checkable
 class HasName(Protocol):
@@ -225,6 +234,9 @@ type AliasInt = int
 type AliasListInt = list[int]
 type AliasUnion = int | str
 type AliasOptA = A | None
+# recursive aliases: plain and parametrised
+type RecJson = list[RecJson] | int
+type RecList[T] = list[RecList[T] | T]
 
 
 # ---- validator predicates (total: never raise) -----------------------------
